@@ -73,6 +73,7 @@ def cbTx (id nOuts : Nat) : TxAbs :=
 
 inductive Cmd
   | op (o : Op)
+  | search (mk : List Nat → Op) (digest : Nat)   -- choice list to be found: the one reproducing the recorded outcome
   | template
   | skip            -- `Z:k:m`: the Go side runs the next k disconnects and m connects as one reorganisation
 
@@ -82,20 +83,25 @@ def findDef (defs : List TxAbs) (id : String) : Option TxAbs := do
 
 def parseIds? (s : String) : Option (List Nat) := (splitList s ",").mapM (·.toNat?)
 
+/-- a choice field: ids, or `h<digest>` (the implementation's outcome; the driver searches the order) -/
+def withPrio (field : String) (mk : List Nat → Op) : Option Cmd :=
+  if field.startsWith "h" then (field.drop 1).toString.toNat?.map (fun d => .search mk d)
+  else (parseIds? field).map (fun p => .op (mk p))
+
 def parseOp? (defs : List TxAbs) (s : String) : Option Cmd :=
   match s.splitOn ":" with
   | ["P", id, ao, rl, tag, ev, prio] => do
-    pure (.op (.process (← findDef defs id) (← parseBool? ao) (← parseBool? rl) (← tag.toNat?) (← ev.toNat?) (← parseIds? prio)))
+    withPrio prio (.process (← findDef defs id) (← parseBool? ao) (← parseBool? rl) (← tag.toNat?) (← ev.toNat?))
   | ["A", id, isNew, rl] => do pure (.op (.maybeAccept (← findDef defs id) (← parseBool? isNew) (← parseBool? rl)))
   | ["K", id] => do pure (.op (.check (← findDef defs id)))
   | ["R", id, red] => do pure (.op (.remove (← findDef defs id) (← parseBool? red)))
   | ["D", id] => do pure (.op (.removeDoubleSpends (← findDef defs id)))
-  | ["O", id, prio] => do pure (.op (.processOrphans (← findDef defs id) (← parseIds? prio)))
+  | ["O", id, prio] => do withPrio prio (.processOrphans (← findDef defs id))
   | ["X", id] => do pure (.op (.removeOrphan (← findDef defs id)))
   | ["G", tag] => do pure (.op (.removeOrphansByTag (← tag.toNat?)))
   | ["C", cb, cbOuts, mtp, txs, _ts, prio] => do
     let txs ← (splitList txs ",").mapM (findDef defs)
-    pure (.op (.connect ⟨cbTx (← cb.toNat?) (← cbOuts.toNat?), txs, ← relTime? mtp⟩ (← parseIds? prio)))
+    withPrio prio (.connect ⟨cbTx (← cb.toNat?) (← cbOuts.toNat?), txs, ← relTime? mtp⟩)
   | ["U"] => some (.op .disconnect)
   | ["T"] => some .template
   | ["Z", _, _] => some .skip
@@ -150,6 +156,18 @@ def ambiguous (before after : Pool) (o : Op) : Bool :=
   before.byPrev.any (fun p => walked.contains p.1.txid &&
     before.byPrev.any (fun q => q.1 = p.1 && q.2.id ≠ p.2.id) && !after.inOrphans p.2.id)
 
+def contestedAll (s : Pool) : List Nat :=
+  (s.byPrev.filter (fun p => s.byPrev.any (fun q => q.1 = p.1 && q.2.id ≠ p.2.id))).map (·.2.id)
+
+def permsF : Nat → List Nat → List (List Nat)
+  | 0, _ => [[]]
+  | _, [] => [[]]
+  | f + 1, l => l.flatMap (fun x => (permsF f (l.erase x)).map (x :: ·))
+
+/-- FNV-1a, 64 bit, over the bytes of the string -/
+def fnv64 (s : String) : Nat :=
+  (s.toUTF8.foldl (fun (h : UInt64) b => (h ^^^ b.toUInt64) * 1099511628211) 14695981039346656037).toNat
+
 /-- the recorded choice list of an operation; when present the model follows it and the comparison goes on -/
 def opPrio : Op → List Nat
   | .process _ _ _ _ _ prio => prio
@@ -163,6 +181,15 @@ def runCmds (pol : Policy) : State → List Cmd → List String
   | st, .template :: rest =>
     -- Spec answer: the pooled set is minable whenever height/MTP have not moved back since admission
     ((if st.pool.pool.all (·.fresh) then "t:1;" else "t:?;") ++ showPool st.pool) :: runCmds pol st rest
+  | st, .search mk digest :: rest =>
+    -- all orders of the orphans that share a redeemed outpoint; the first one that reproduces the
+    -- recorded outcome is the order the implementation's map iteration took
+    let cands := (contestedAll st.pool).eraseDups
+    let orders := if cands.length ≤ 6 then permsF cands.length cands else [[]]
+    let obs := fun (p : List Nat) => let r := step pol st (mk p); showResult r.2 ++ ";" ++ showPool r.1.pool
+    let p := (orders.find? (fun p => fnv64 (obs p) == digest)).getD []
+    let r := step pol st (mk p)
+    (showResult r.2 ++ ";" ++ showPool r.1.pool) :: runCmds pol r.1 rest
   | st, .op o :: rest =>
     let r := step pol st o
     if ambiguous st.pool r.1.pool o && (opPrio o).isEmpty then ["nd"]
